@@ -5,12 +5,12 @@ patch="$1"; checks="$2"; tier="${3:-quick}"
 cd /verif || exit 2
 if [ -n "$(git -C /repo status --porcelain)" ]; then echo "repo not clean"; exit 2; fi
 if ! git -C /repo apply "$patch" 2>/dev/null; then
-  if ! git -C /repo apply --3way "$patch" 2>/dev/null; then echo "PATCH-DOES-NOT-APPLY $patch"; git -C /repo checkout -- . ; git -C /repo reset -q; exit 3; fi
+  if ! git -C /repo apply --3way "$patch" 2>/dev/null; then echo "PATCH-DOES-NOT-APPLY $patch"; git -C /repo reset -q --hard HEAD; exit 3; fi
 fi
 for c in $checks; do
   out=$(./check "$c" --tier "$tier" 2>/dev/null | grep -E "VIOLATION|class:|HARNESS|quick:|thorough:" | cut -c1-260)
   if echo "$out" | grep -q VIOLATION; then echo "[$c] DETECTED"; else echo "[$c] missed"; fi
   echo "$out" | grep -E "class:|HARNESS" | head -4
 done
-git -C /repo checkout -- . ; git -C /repo reset -q
+git -C /repo reset -q --hard HEAD
 git -C /repo status --porcelain | head -3
